@@ -12,15 +12,15 @@ TrMonPairs == Actors \X Actors
 TrMax == [a \in Actors |-> 1000]
 TrEnvOps == [a \in Actors |-> {"stop", "kill", "drain", "abort", "selfkill", "selfstop"}]
 
-VARIABLES l, dev
-tvars == <<vars, l, dev>>
+VARIABLES l, dev, stray   \* stray: names momentarily held by a probe actor of the harness (obs.clash d=0)
+tvars == <<vars, l, dev, stray>>
 Ev == Rec[l]
 X == Ev.x
 Adv == l' = l + 1
 Live == l <= N
 IsA(a) == Live /\ Ev.a = a /\ (IF Ev.a \in {"reset", "obs.end"} THEN TRUE ELSE Ev.x \in Actors)
 Same == UNCHANGED vars
-ND == UNCHANGED dev
+ND == UNCHANGED <<dev, stray>>
 
 \* internal points: consumed in strict mode, skipped (and their actions taken silently) in lenient mode
 Internal == {"port.stop", "port.sup", "port.msg", "port.drain", "sig.handled", "guard.cleanup", "guard.done", "decode.dropped", "tl.start"}
@@ -38,6 +38,7 @@ CbEnter ==
         /\ ac[X].cur.ek = Ev.ek /\ ac[X].cur.about = Ev.about /\ ac[X].cur.hs = (Ev.hs = 1) /\ ac[X].cur.reason = Ev.reason
         \* C04 reads "kill: no state"; the code reports the state for kills landing in the loop
         /\ dev' = IF Ev.ek = "terminated" /\ Ev.reason = "killed" /\ Ev.hs = 1 THEN dev \cup {"KillCarriesState"} ELSE dev
+        /\ UNCHANGED stray
 CbExit ==
   /\ IsA("obs.cb_exit") /\ Adv /\ ND
   /\ \/ Ev.k = "pre_start" /\ PreEnd(X, Ev.o)
@@ -48,6 +49,7 @@ CbBody ==
   \/ IsA("obs.tick") /\ ac[X].cb.k # "none" /\ ~ac[X].cb.susp /\ Same /\ Adv /\ ND
   \/ IsA("obs.yield") /\ Yield(X) /\ Adv /\ ND
   \/ IsA("obs.resume") /\ Resume(X) /\ Adv /\ ND
+  \/ IsA("obs.joinpg") /\ JoinPg(X) /\ Adv /\ ND
 
 EnvEv ==
   \/ IsA("obs.spawn_call") /\ SpawnCall(X) /\ Adv /\ ND
@@ -63,11 +65,19 @@ EnvEv ==
      /\ IF ac[X].abortReq = "none" /\ Alive(X) /\ ((Ev.role = "spawner") = (ac[X].pc \in {"new", "lnew", "pre"}))
           THEN EnvAbort(X) ELSE Same
   \/ /\ IsA("obs.task_dropped") /\ Adv /\ ND
-     /\ IF ac[X].abortReq = Ev.role /\ Alive(X) /\ ac[X].pc # "exiting" THEN AbortDrop(X) ELSE Same
+     \* a thread-local actor's start runs in an unnamed builder task on the spawner's thread: the
+     \* drop of the task that merely waits for it is not the actor's drop (see SilentDrop)
+     /\ IF X \notin Local /\ ac[X].abortReq = Ev.role /\ Alive(X) /\ ac[X].pc # "exiting" THEN AbortDrop(X) ELSE Same
   \/ IsA("obs.status") /\ ac[X].st = Ev.d /\ Same /\ Adv /\ ND
   \/ IsA("obs.start_ret") /\ (IF Ev.err = "no_supervisor" THEN ac[X].pc = "none"
+                              ELSE IF Ev.err = "join_error" THEN ac[X].abortReq # "none" \/ ac[X].exitK = "abort"
                               ELSE ac[X].spawnRes = (IF Ev.d = 1 THEN "ok" ELSE "err")) /\ Same /\ Adv /\ ND
   \/ IsA("obs.join_begin") /\ Same /\ Adv /\ ND
+  \* a second spawn under a live actor's name fails with ActorAlreadyRegistered and changes nothing
+  \/ /\ IsA("obs.clash") /\ Same /\ Adv /\ UNCHANGED dev
+     /\ IF Ev.d = 1 THEN (Registered(X) \/ stray[X] > 0) /\ UNCHANGED stray
+                    ELSE Ev.d = 0 /\ ~Registered(X) /\ stray' = [stray EXCEPT ![X] = @ + 1]
+  \/ IsA("obs.clash_done") /\ Same /\ Adv /\ UNCHANGED dev /\ stray' = [stray EXCEPT ![X] = @ - 1]
   \/ IsA("obs.join_ret") /\ ac[X].pc = "dead" /\ (Ev.r = "cancelled") = (ac[X].exitK = "abort") /\ Ev.r # "panic" /\ Same /\ Adv /\ ND
 
 LoopEv ==
@@ -93,6 +103,8 @@ FinOk(f) == /\ f.x \in Actors
             /\ ac[f.x].st = f.st
             /\ f.kids = Cardinality(Kids(f.x))
             /\ f.sup = (ac[f.x].par # NoA)
+            /\ f.reg = Registered(f.x)
+            /\ f.pg = InGroup(f.x)
 \* at quiescence nothing is in flight: every actor is absent, idle with empty queues, or dead
 QuiescentOk == \A a \in Actors : /\ ac[a].pc \in {"none", "idle", "dead"}
                                   /\ (ac[a].pc = "idle" => ac[a].supq = <<>> /\ ac[a].mq = <<>>)
@@ -103,11 +115,11 @@ End == /\ IsA("obs.end") /\ Adv /\ Same /\ ND
 
 Reset == /\ IsA("reset") /\ Adv
          /\ ac' = [a \in Actors |-> InitActor] /\ nsent' = [a \in Actors |-> 0] /\ ninj' = [a \in Actors |-> 0]
-         /\ dev' = {}
+         /\ dev' = {} /\ stray' = [a \in Actors |-> 0]
 
 TNext == Reset \/ End \/ CbEnter \/ CbExit \/ CbBody \/ EnvEv \/ LoopEv \/ SilentRefuse
 
-TInit == Init /\ l = 1 /\ dev = {} /\ TLCSet(42, 1)
+TInit == Init /\ l = 1 /\ dev = {} /\ stray = [a \in Actors |-> 0] /\ TLCSet(42, 1)
 TSpec == TInit /\ [][TNext]_tvars
 Progress == TLCSet(42, IF l > TLCGet(42) THEN l ELSE TLCGet(42))
 Accepted == IF TLCGet(42) > N THEN TRUE
